@@ -22,14 +22,17 @@ LEVEL_TEXT = ("Lean theorems over Model/Codec.lean (generic interpreter of the s
               "domain makes the encoder fail (never truncation); the table regenerated from src/cascade/shm/api.py on every run "
               "satisfies SchemaOK (ser = deser per class, distinct one-byte tags, every concrete class tagged, size and free-space "
               "fields >= 8 bytes, string length prefixes >= 4 bytes) by `decide`, hence every message of cascade.shm.api with sizes "
-              "< 2^64 and ASCII strings < 2^32 round-trips. Tied to the real api.ser/api.deser byte for byte.")
+              "< 2^64 and ASCII strings < 2^32 round-trips (with a witness per class at 2^64-1). Tied to the real api.ser/api.deser byte "
+              "for byte, also on corrupted input. Additionally the JSON shape of a job instance (Model/Json.lean: keys of job.dict()) "
+              "is proved to load back to the same instance for jobs of any size and compared with the dump the real code writes.")
 LEVEL_NOTE = ("proved: shm api (src/cascade/shm/api.py) through the generated table; modelled, not verified: the translator "
               "(validated each run by the byte-level comparison with the real code) and Model/Codec.lean. SAMPLED, NOT PROVED: executor "
               "messages (pickle; serde.py, comms.callback / ReliableSender.send / send_data -> Listener._recv_one incl. payload frames), "
               "controller reports (pickle), gateway request/response pairs (pydantic + orjson; request_response, parse_request, "
               "serialize_response) and JobInstance -> orjson.dumps(job.dict()) -> file -> JobInstance (router._spawn_local writer, "
               "benchmarks get_job reader; compared by model_dump) are round-tripped through the real code with boundary-biased "
-              "values generated from the type annotations; pickle, pydantic and orjson themselves are trusted. The frame-sequence "
+              "values generated from the type annotations; pickle, pydantic and orjson themselves are trusted (Model/Json.lean models "
+              "only the key layout of the job dump, not pydantic's coercions nor orjson's number formatting). The frame-sequence "
               "parser of comms.Listener is proved under C06, here it is only used as a pipe. String lengths compared with the real "
               "code reach 70 000 characters (2^32-1 is covered by the theorem only). The UDP transport of the shm protocol "
               "(recv(1024)) is outside the model.")
@@ -45,6 +48,7 @@ RULE = ("shm: (a) deterministic sweep: every class x every field x every boundar
         "bytes payloads, multi-output tasks with positional and keyword edges; plus fixed probes outside the JSON domain. "
         "non-trivial = message with at least one field carrying a non-default value; distinct by content hash")
 ASSUMPTIONS = [
+    "the translator recognises only declarative module-level code in api.py; behaviour installed at run time (monkeypatching inside a function) is seen by the byte-level comparison only",
     "shm messages travel in one datagram that is delivered whole (server/client use recv(1024); longer messages are outside the model)",
     "all int fields of cascade.shm.api carry byte counts (dataset size, free space): the admitted domain is 0 <= n < 2^64",
     "EmptyCommand is an abstract base (never sent): it need not be in the tag table",
